@@ -1119,6 +1119,12 @@ def rule_linalg_kinds(ctx):
                 if got != exp_args:
                     probs.append('passes %s, expected %s' % (got, exp_args))
                 okw = [k.value for k in c.keywords if k.arg == 'out']
+                if not okw:
+                    # the output handed over by position (the position of `out` in the kernel's own signature)
+                    kfi = m.lookup_method('UTPM', c.func.attr)
+                    vp_ = kfi.value_params() if kfi is not None else []
+                    if 'out' in vp_ and len(c.args) > vp_.index('out') and not any(isinstance(a_, ast.Starred) for a_ in c.args):
+                        okw = [c.args[vp_.index('out')]]
                 if not okw or norm(okw[0]) != 'out.data':
                     probs.append('kernel output is not out.data')
             if name in ('dot', 'solve'):
